@@ -231,10 +231,16 @@ class Stats:
 # known findings
 # --------------------------------------------------------------------------------------
 def load_known(prop: str) -> list[dict]:
-    if not KNOWN.exists():
-        return []
-    data = json.loads(KNOWN.read_text())
-    return [f for f in data.get('findings', []) if f['property'] == prop]
+    """findings of `prop` from known_findings.json (the committed, consolidated file) and from
+    findings/<prop>.json (per-property source files it is consolidated from); read-only."""
+    out: dict[str, dict] = {}
+    for path in [KNOWN, VERIF / 'findings' / f'{prop}.json']:
+        if path.exists():
+            data = json.loads(path.read_text())
+            for f in data.get('findings', []):
+                if f.get('property') == prop:
+                    out.setdefault(f['id'], f)
+    return list(out.values())
 
 
 def match_known(d: Disagreement, known: list[dict]) -> Optional[dict]:
